@@ -634,9 +634,6 @@ pub fn parse_hex_color(lexer: VLexer, options: &crate::Options<'_>) -> (Result<c
     (r, VLexer(toks))
 }
 
-/// The serializer type, nameable from harness stubs
-pub type VSerializer<'a> = crate::serializer::Serializer<'a>;
-
 pub fn hex_char_for(n: u32) -> char {
     crate::utils::hex_char_for(n)
 }
